@@ -1,0 +1,210 @@
+// Conformance-harness hooks. Compiled only with `--cfg maidsafe_safe_network_verif`.
+//
+// Nothing in here contains logic of its own: public wrappers around crate-private items so that an
+// external harness can drive the real objects, read-only views, and task gates that let the
+// harness decide the order in which the record store's spawned background bodies run.
+
+use crate::replication_fetcher::ReplicationFetcher;
+use crate::{event::NetworkEvent, NodeRecordStore};
+use ant_evm::{QuotingMetrics, U256};
+use ant_protocol::{storage::RecordType, NetworkAddress};
+use libp2p::{
+    kad::{KBucketDistance as Distance, Record, RecordKey},
+    PeerId,
+};
+use std::collections::HashMap;
+use std::sync::Mutex;
+use tokio::sync::{mpsc, oneshot};
+
+pub use crate::cmd::{LocalSwarmCmd, NetworkSwarmCmd};
+
+// ------------------------------------------------------------------------------------------
+// Task gates
+// ------------------------------------------------------------------------------------------
+
+/// A spawned background body that has reached its gate and waits to be released.
+pub struct GateReq {
+    /// "write", "delete" or "flush"
+    pub kind: &'static str,
+    /// the file the body is going to touch
+    pub tag: String,
+    /// send `()` to let the body run; dropping it parks the body forever (a crash)
+    pub release: oneshot::Sender<()>,
+}
+
+pub enum GateEvent {
+    Arrived(GateReq),
+    Done { kind: &'static str, tag: String },
+}
+
+static GATE_CTRL: Mutex<Option<mpsc::UnboundedSender<GateEvent>>> = Mutex::new(None);
+
+/// Install the controller; from now on every gated body parks until released.
+pub fn install_gate_controller() -> mpsc::UnboundedReceiver<GateEvent> {
+    let (tx, rx) = mpsc::unbounded_channel();
+    if let Ok(mut guard) = GATE_CTRL.lock() {
+        *guard = Some(tx);
+    }
+    rx
+}
+
+pub fn remove_gate_controller() {
+    if let Ok(mut guard) = GATE_CTRL.lock() {
+        *guard = None;
+    }
+}
+
+fn gate_ctrl() -> Option<mpsc::UnboundedSender<GateEvent>> {
+    GATE_CTRL.lock().ok().and_then(|g| g.clone())
+}
+
+/// First statement of a gated body. Returns at once when no controller is installed.
+pub(crate) async fn gate(kind: &'static str, tag: String) {
+    if let Some(tx) = gate_ctrl() {
+        let (release, released) = oneshot::channel();
+        if tx
+            .send(GateEvent::Arrived(GateReq { kind, tag, release }))
+            .is_ok()
+            && released.await.is_err()
+        {
+            // never released: the body must not run (the harness simulates a crash)
+            std::future::pending::<()>().await;
+        }
+    }
+}
+
+/// Last statement of a gated body.
+pub(crate) fn gate_done(kind: &'static str, tag: String) {
+    if let Some(tx) = gate_ctrl() {
+        let _ = tx.send(GateEvent::Done { kind, tag });
+    }
+}
+
+// ------------------------------------------------------------------------------------------
+// Record store: wrappers for the crate-private API
+// ------------------------------------------------------------------------------------------
+
+pub fn store_put_verified(
+    store: &mut NodeRecordStore,
+    record: Record,
+    record_type: RecordType,
+) -> libp2p::kad::store::Result<()> {
+    store.put_verified(record, record_type)
+}
+
+pub fn store_mark_as_stored(store: &mut NodeRecordStore, key: RecordKey, record_type: RecordType) {
+    store.mark_as_stored(key, record_type)
+}
+
+pub fn store_contains(store: &NodeRecordStore, key: &RecordKey) -> bool {
+    store.contains(key)
+}
+
+#[allow(clippy::mutable_key_type)]
+pub fn store_record_addresses(store: &NodeRecordStore) -> HashMap<NetworkAddress, RecordType> {
+    store.record_addresses()
+}
+
+pub fn store_record_addresses_ref(
+    store: &NodeRecordStore,
+) -> &HashMap<RecordKey, (NetworkAddress, RecordType)> {
+    store.record_addresses_ref()
+}
+
+pub fn store_quoting_metrics(
+    store: &NodeRecordStore,
+    key: &RecordKey,
+    network_size: Option<u64>,
+) -> (QuotingMetrics, bool) {
+    store.quoting_metrics(key, network_size)
+}
+
+pub fn store_payment_received(store: &mut NodeRecordStore) {
+    store.payment_received()
+}
+
+pub fn store_set_responsible_distance_range(store: &mut NodeRecordStore, range: U256) {
+    store.set_responsible_distance_range(range)
+}
+
+// ------------------------------------------------------------------------------------------
+// Replication fetcher: wrapper around the crate-private type
+// ------------------------------------------------------------------------------------------
+
+pub struct VerifFetcher(ReplicationFetcher);
+
+impl VerifFetcher {
+    pub fn new(self_peer_id: PeerId, event_sender: mpsc::Sender<NetworkEvent>) -> Self {
+        Self(ReplicationFetcher::new(self_peer_id, event_sender))
+    }
+
+    pub fn set_replication_distance_range(&mut self, distance_range: U256) {
+        self.0.set_replication_distance_range(distance_range)
+    }
+
+    pub fn add_keys(
+        &mut self,
+        holder: PeerId,
+        incoming_keys: Vec<(NetworkAddress, RecordType)>,
+        locally_stored_keys: &HashMap<RecordKey, (NetworkAddress, RecordType)>,
+    ) -> Vec<(PeerId, RecordKey)> {
+        self.0.add_keys(holder, incoming_keys, locally_stored_keys)
+    }
+
+    pub fn set_farthest_on_full(&mut self, farthest_in: Option<RecordKey>) {
+        self.0.set_farthest_on_full(farthest_in)
+    }
+
+    pub fn notify_about_new_put(
+        &mut self,
+        new_put: RecordKey,
+        record_type: RecordType,
+    ) -> Vec<(PeerId, RecordKey)> {
+        self.0.notify_about_new_put(new_put, record_type)
+    }
+
+    pub fn notify_fetch_early_completed(
+        &mut self,
+        key_in: RecordKey,
+        record_type: RecordType,
+    ) -> Vec<(PeerId, RecordKey)> {
+        self.0.notify_fetch_early_completed(key_in, record_type)
+    }
+
+    pub fn next_keys_to_fetch(&mut self) -> Vec<(PeerId, RecordKey)> {
+        self.0.next_keys_to_fetch()
+    }
+
+    /// Queued entries: (key, type, holder)
+    pub fn to_be_fetched(&self) -> Vec<(RecordKey, RecordType, PeerId)> {
+        self.0.verif_to_be_fetched()
+    }
+
+    /// In-flight fetches: (key, type, holder)
+    pub fn on_going_fetches(&self) -> Vec<(RecordKey, RecordType, PeerId)> {
+        self.0.verif_on_going_fetches()
+    }
+
+    pub fn distance_range(&self) -> Option<U256> {
+        self.0.verif_distance_range()
+    }
+
+    pub fn farthest_acceptable_distance(&self) -> Option<Distance> {
+        self.0.verif_farthest_acceptable_distance()
+    }
+
+    /// Make the deadline of one in-flight fetch lie in the past. Returns whether it existed.
+    pub fn expire_on_going(&mut self, key: &RecordKey, record_type: &RecordType) -> bool {
+        self.0.verif_expire_on_going(key, record_type)
+    }
+
+    /// Make the deadline of one queued entry lie in the past. Returns whether it existed.
+    pub fn expire_pending(
+        &mut self,
+        key: &RecordKey,
+        record_type: &RecordType,
+        holder: &PeerId,
+    ) -> bool {
+        self.0.verif_expire_pending(key, record_type, holder)
+    }
+}
